@@ -40,3 +40,10 @@ func replayVerdict(id string, violated bool, msg string) int {
 	fmt.Printf("REPLAY property=%s verdict=HOLDS %s\n", id, msg)
 	return 0
 }
+
+// oddStrings is the shared alphabet of unusual string values (one per character class or shape that parsers
+// commonly mishandle); used for cookies, paths, hosts, query values and configuration string fields.
+var oddStrings = []string{
+	"", " ", "\"", "\"\"", "'", "%", "%zz", "%2F", "%00", "%25", ";", "&", "=", "==", "#", "?", "+", "/", "//", "\\", ":", "::", "@",
+	"\x00", "\x7f", "\r\n", "\t", "\xff\xfe", "\u00fc", "a b", "a=b", "a;b", "a&b", "a\"b", "../..", "%c0%af", "{}", "[]", "null", "0", "-1",
+}
